@@ -120,6 +120,12 @@ def run(ctx) -> None:
                     if unparse(tg) == base.id and any(isinstance(c, ast.Call) and isinstance(c.func, ast.Attribute) and c.func.attr == "_asdict" for c in ast.walk(val)):
                         whole = True
             reset_only = any(isinstance(c, ast.Call) and unparse(c.func).endswith("_iter_reset_field_items") for c in ast.walk(src))
+            if not reset_only and isinstance(base, ast.Name):
+                # a dict filled in this function only with V2_FIELD_INITIAL_VALUES entries (the merged form of the reset loop)
+                fills = [st for st in ast.walk(fn_.node) if isinstance(st, ast.Assign) and isinstance(st.targets[0], ast.Subscript) and unparse(st.targets[0].value) == base.id]
+                d0 = [v for _s, v in shapes.local_defs(fn_, base.id) if v is not None]
+                reset_only = bool(fills) and len(d0) == 1 and isinstance(d0[0], ast.Dict) and not d0[0].keys and \
+                    all(shapes.flows_from(fn_, st.value, lambda e: isinstance(e, ast.Call) and unparse(e.func).endswith("V2_FIELD_INITIAL_VALUES.get")) for st in fills)
             if whole:
                 ctx.bad("R3", f"{fq_}: every all-digit string field of the version record is converted to int - BUILD included",
                         f"`for {k_}, {v_} in {unparse(loop.iter)}` walks the whole record: a zero-padded BUILD such as '01000' becomes 1000 "
